@@ -29,3 +29,35 @@ package connectconformance
 //@ func (*testTrie).matchPattern
 //@   requires tt != nil
 //@   modifies atomicI32
+//@   ensures result == nameGlobs(tt, pattern)
+//@   ensures !result ==> atomicI32 == old(atomicI32)
+
+// Every child stored in a trie node is a real node.
+//@ mapvalues map[string]*testTrie: v != nil
+
+//@ func parsePatterns
+//@   ensures (len(patterns) == 0) == (result == nil)
+
+//@ func (*testTrie).addPattern
+//@   requires tt != nil
+//@   modifies testTrie.present, testTrie.children, map[string]*testTrie
+
+//@ func (*testTrie).add
+//@   requires tt != nil
+//@   modifies testTrie.present, testTrie.children, map[string]*testTrie
+//@   ensures len(components) == 0 ==> tt.present
+
+//@ func (*testTrie).allUnmatched
+//@   requires tt != nil
+//@   ensures result != nil
+
+//@ func (*testTrie).findUnmatched
+//@   requires tt != nil && unmatched != nil
+//@   modifies map[string]struct{}
+
+//@ func (*testTrie).length
+//@   requires tt != nil
+//@   pure
+
+// nameGlobs(tt, name): some pattern of tt globs the "/"-separated components of name.
+//@ spec nameGlobs(tt *testTrie, name string) bool = trieT(tt, splitView(name, "/"))
